@@ -444,14 +444,32 @@ def eval_mm(res, world, rng):
         res.violation("setup", "admissible-agent-settings-refused", {"class": "MarketMakerAgent", "settings": st, "exc": repr(e)})
         return
     res.count("evaluations/MarketMakerAgent")
-    wit = {"class": "MarketMakerAgent", "settings": st, "accessible": acc, "time": target.get_time()}
+    if _mm_consult(res, world, a, target, acc, theta, otl, st, "first") and rng.random() < 0.5:
+        # the same agent is asked again in the same step (a high-frequency agent is consulted after every normal
+        # batch) after the quotes of one of its markets have moved
+        m2 = world.markets[acc[rng.randrange(len(acc))]] if all(i < len(world.markets) for i in acc) else target
+        bb, ba = m2.get_best_buy_price(), m2.get_best_sell_price()
+        t_ = m2.tick_size
+        if bb is not None and ba is not None and ba - bb > 4 * t_:
+            if rng.random() < 0.5:
+                world.quote(m2, bb + rng.randint(1, 2) * t_, None)
+            else:
+                world.quote(m2, None, ba - rng.randint(1, 2) * t_)
+            res.count("class/mm_asked_again_in_the_same_step_after_quotes_moved")
+            _mm_consult(res, world, a, target, acc, theta, otl, st, "second-in-step")
+
+
+def _mm_consult(res, world, a, target, acc, theta, otl, st, which):
+    from pams.order import LIMIT_ORDER
+
+    wit = {"class": "MarketMakerAgent", "settings": st, "accessible": acc, "time": target.get_time(), "consultation": which}
     try:
         orders = a.submit_orders(markets=world.markets)
     except Exception as e:  # noqa
         res.violation("mm", "built-in-agent-raised-on-admissible-state", dict(wit, exc=repr(e)))
-        return
+        return False
     if not wellformed(res, a, orders, "MarketMakerAgent"):
-        return
+        return False
     bids = [m.get_best_buy_price() for m in world.markets if m.market_id in acc and m.get_best_buy_price() is not None]
     asks = [m.get_best_sell_price() for m in world.markets if m.market_id in acc and m.get_best_sell_price() is not None]
     if bids and asks:
@@ -467,7 +485,7 @@ def eval_mm(res, world, rng):
     if len(orders) != 2 or len(buys) != 1 or len(sells) != 1 or any(o.market_id != target.market_id for o in orders) \
             or any(o.kind != LIMIT_ORDER for o in orders):
         res.violation("mm", "market-maker-does-not-quote-one-buy-and-one-sell-on-its-target", wit)
-        return
+        return False
     b, s = buys[0], sells[0]
     scale = max(abs(base), 1e-12)
     if abs((s.price - b.price) - 2 * half) > 1e-9 * scale:
@@ -479,6 +497,7 @@ def eval_mm(res, world, rng):
         res.violation("mm", "market-maker-quotes-have-different-lifetimes", wit)
     elif otl is not None and b.ttl != exp_ttl:
         res.violation("mm", "market-maker-lifetime-differs-from-orderTimeLength", wit)
+    return True
 
 
 # ---------------------------------------------------------------------------
